@@ -264,6 +264,24 @@ Definition inertiaFromSel (sel : list (cgeom T)) : option (option (inertial T)) 
         Some (Some (IFull mass ipos (accInertia ipos sel)))
   end.
 
+(* ---- mjCBody::AccumulateInertia(other, result) (fusestatic, mjs_bodyToFrame): res = (mass, ipos, iquat, inertia) of the
+   receiving body, opose = frame (pos, quat) of the fused child in the receiving body, other = the child's own
+   (mass, ipos, iquat, inertia).  The child's inertial frame is first accumulated into the parent frame
+   (mjuu_frameaccum: position rotated and shifted, quaternion = body quat * iquat), then the two-entry parallel-axis sum runs
+   (toti += inertA + inertB).  A total mass below mjMINVAL gives the zero inertial. *)
+Definition accInertia2 (ipos : vec3 T) (l : list (cgeom T)) : sym6 T :=
+  fold_left (fun t g => let '(a, b) := geomTensorAbout ipos g in add6 t (add6 a b)) l zero6.
+Definition accumulateInertia (res : cgeom T) (opose : pose T) (other : cgeom T) : inertial T :=
+  let '(m2, ip2, iq2, in2) := other in
+  let '(op, oq) := frameaccum opose (ip2, iq2) in
+  let l := [res; (m2, op, oq, in2)] in
+  let mass := accMass l in
+  if mass <? mjMINVAL then IDiag nzero zero3 quatId zero3
+  else
+    let '(c0, c1, c2) := accCom l in
+    let ipos := (c0 / mass, c1 / mass, c2 / mass) in
+    IFull mass ipos (accInertia2 ipos l).
+
 (* the full tensor (about ipos, in body axes) that an inertial stands for *)
 Definition inertialFull (i : inertial T) : sym6 T :=
   match i with IDiag _ _ q d => globalinertia d q | IFull _ _ f => f end.
